@@ -153,6 +153,9 @@ def check_c01(ctx):
     ctx.log("operator level: %d behaviours replayed on the real operator (Synchronization -> unlock -> Events): %s" % (ne2e, e2e_stats))
     ctx.cov["operator_level_replay"] = e2e_stats
     nlog += ne2e
+    # bindings that watch the same objects share one client-go informer (FactoryStore): spec/SharedInformers
+    import shared
+    nlog += shared.run(ctx, ("C01/",))
     ctx.cov["delivery_runs"] = runs
     ctx.cov["delivery_events"] = len(events)
     ctx.log("manager level: %d free-running runs (%d trace records) validated by TLC against KubeDelivery: %s" % (runs, len(events), t["violated"] or "accepted"))
